@@ -1,5 +1,5 @@
 # XML-level inbound properties. KERNEL, GEN, HARNESS, PROFILE_MODEL are injected by lib/props.py
-TREE_MODEL = PROFILE_MODEL + ["Xml", "Ns", "Schema", "Decode", "Response"]
+TREE_MODEL = PROFILE_MODEL + ["Escape", "Xml", "Ns", "Schema", "Decode", "Response", "Dsig"]
 ORACLES = "oracles of the tree-level model (Section variables; theorems hold for every behaviour of them): dsig = goxmldsig ValidationContext{configured store, SP clock}.Validate on an element; decrypt = unmarshal EncryptedAssertion -> getDecryptCert -> DecryptBytes -> parseResponse (refined in Decrypt.v/Keys.v/Deflate.v). In the correspondence run their answers are tables computed by the harness with the real goxmldsig / implementation functions"
 LAWS = "laws exercised by every XML-level correspondence case, not proved: tokenising etree's serialisation of a tree yields that tree's tokens with encoding/xml's name-space translation (H_unmarshal_view); etree.ReadFromBytes / base64 / DEFLATE / xml-roundtrip-validator happen before the model starts (parseResponse is modelled separately, C12)"
 MODELLED = "hand-written models Ns.v (etreeutils NSTraverse/NSFindIterate/NSDetatch, limit 1000 from the pinned goxmldsig v1.5.0), Schema.v (encoding/xml Unmarshal interpreter over the GENERATED struct-tag schema), Decode.v, Response.v, Profile.v, tied to /repo by the correspondence run"
@@ -10,9 +10,10 @@ def mk(extra_assume=()):
                 assumptions=["goxmldsig (signature search, certificate rules, canonicalisation, digest) is an oracle: modelled only through its verdict and returned tree",
                              "attribute order of NSDetatch'ed copies is compared up to permutation (sort.Sort + Go map order are not modelled)"] + list(extra_assume))
 PROPS = {
-    "C01": mk(),
+    "C01": mk(["C01_end_to_end_with_signature_model instantiates the oracle with Dsig.v, the model of goxmldsig v1.5.0 (its own oracles: canonicalisers, digest, signature check, certificate parser, re-parse); that model is corresponded with the real library by the DSIG stream run under C02"]),
     "C03": mk(["struct-level complete characterisation of Validate plus tree-level theorem that every decode path ends with it"]),
-    "C02": mk(["certificate membership / validity-window rules are goxmldsig's (dependency); gosaml2's part - which store and which clock reach it, and that only ErrMissingSignature continues - is what is proved and corresponded"]),
+    "C02": mk(["the certificate rules are proved on Dsig.v (model of the pinned goxmldsig v1.5.0) and this check also runs the DSIG correspondence stream against the real library (stage-exact observables through go:linkname)",
+               "certificate membership / validity-window rules are goxmldsig's (dependency); gosaml2's part - which store and which clock reach it, and that only ErrMissingSignature continues - is what is proved and corresponded"]),
     "C04": mk(),
     "C07": mk(["binding of decryption to the SP key (recipient certificate equality, certificate window) is covered by the decrypt-chain model of Decrypt.v/Keys.v; here it is the decrypt oracle"]),
     "C08": mk(["acceptance of every conforming layout is established by the correspondence run and the spec oracle over the generated layouts (partial as a theorem: it needs a canonicalisation model, see DESIGN.md)"]),
